@@ -218,8 +218,15 @@ impl SplitterSet {
         }
     }
 
+    // Take the splitter list of block b.
+    // The vector of lists only grows when a splitter is added, so it may have no
+    // entry for b yet: a block none of whose states has a predecessor never gets a
+    // splitter. Such a block has an empty list.
     fn take_list(&mut self, b: u32) -> SplitterList {
-        std::mem::take(&mut self.list[b as usize])
+        match self.list.get_mut(b as usize) {
+            Some(l) => std::mem::take(l),
+            None => SplitterList::default(),
+        }
     }
 
     fn add_splitter(&mut self, s: &Splitter) {
